@@ -158,6 +158,11 @@ def normalize_slice(idx, dim):
             if stop is not None and start is not None and stop < start:
                 stop = start
         elif step < 0:
+            if start < 0:
+                # ``indices`` clamps a start below ``-dim`` to -1, meaning
+                # "before the first element": the selection is empty.
+                # Re-emitting -1 would select from the last element instead.
+                return slice(0, 0, step)
             if start >= dim - 1:
                 start = None
             if stop < 0:
